@@ -307,7 +307,10 @@ func c17(c *Ctx) {
 				}
 				return false
 			})
-			fresh := len(lists) > 0
+			if len(lists) == 0 {
+				continue // not an element of a list: the installed version, a constraint bound, …
+			}
+			fresh := true
 			for _, l := range lists {
 				for _, leaf := range leaves(l) {
 					ex, ok := leaf.(*ssa.Extract)
@@ -328,6 +331,12 @@ func c17(c *Ctx) {
 		if len(chk) != 1 || len(srt) != 1 {
 			c.R.Unknown(load.FuncName(fn)+": sort", c.pos(fn.Pos()), "expected sort.Sort before the scan")
 			continue
+		}
+		// … and sorted when complete: no version is added to the list after the sort
+		for _, ap := range calls(fn, "builtin.append") {
+			if strings.HasSuffix(ap.Common().Args[0].Type().String(), "[]*github.com/Masterminds/semver.Version") {
+				c.R.Check(cfgx.InstrReaches(ap, srt[0], nil) && !cfgx.InstrReaches(srt[0], ap, nil), site(ap)+" before the sort", c.pos(ap.Pos()), "versions are collected before the list is sorted", "a version is appended after the list was sorted: the scan runs over tags in registry order, and the last (or first) match is not the highest (or lowest)")
+			}
 		}
 		outer := outermostLoopOf(fn, chk[0].Block())
 		c.R.Check(outer != nil && !outer[srt[0].Block()] && cfgx.MustPass(srt[0].Block(), cfgx.LoopHeader(outer)) && strings.HasSuffix(fullType(cfgx.CallArgs(srt[0])[0]), "semver.Collection"), site(srt[0])+" ascending-before-scan", c.pos(srt[0].Pos()), "versions are sorted (semver.Collection, ascending) before the scan", "the version list is not sorted ascending before the scan")
@@ -366,6 +375,12 @@ func c17(c *Ctx) {
 
 	c.R.Rule("R17.5", "Resolve reports success only when complete", 4, "a revision would report its dependencies satisfied while some are missing or invalid")
 	if rs := c.method(pkgRevision, "PackageDependencyManager", "Resolve"); rs != nil {
+		// every direct dependency is looked at: the loop that checks versions is left early only with an error
+		for _, x := range cfgx.Calls(rs, func(ci ssa.CallInstruction) bool {
+			return strings.HasSuffix(cfgx.CalleeName(ci), "semver.NewConstraint")
+		}) {
+			c.loopVisitsAll(rs, outermostLoopOf(rs, x.Block()), load.FuncName(rs)+": every dependency is checked", "the loop over the direct dependencies ends early only with an error", "the loop over the direct dependencies can be left early without an error: dependencies declared after that one are never checked")
+		}
 		var success []*ssa.Return
 		for _, b := range rs.Blocks {
 			if r, ok := b.Instrs[len(b.Instrs)-1].(*ssa.Return); ok && nonNilError(r) == "nil" {
